@@ -374,6 +374,20 @@ class C04(Harness):
         e3 = ENS([("a", NF())])
         e3.set_params(forecasters=[("x", NF()), ("y", NF("mean"))], y__window_length=v)
         out["order"] = {"names": [n for n, _ in e3.forecasters], "written": self._same(dict(e3.forecasters)["y"].window_length, v)}
+        e4 = ENS([("a", NF())])
+        newy = NF("drift", window_length=v)
+        e4.set_params(forecasters=[("x", NF()), ("y", NF("mean"))], y=newy)
+        out["order_replace"] = {"names": [n for n, _ in e4.forecasters], "replaced": [n for n, e in e4.forecasters if e is newy] == ["y"], "others_kept": 2,
+                                "nested_after_replace": self._same(dict(e4.forecasters)["y"].window_length, v), "written": ["id", not hasattr(e4, "y")], "unknown_nested": "ValueError"}
+        e5 = ENS([("a", NF()), ("b", NF())])
+        try:
+            e5.set_params(forecasters=[("x", NF()), ("y", NF("mean"))], a=NF("drift"))
+            stale = "accepted"
+        except ValueError:
+            stale = "ValueError"
+        except Exception as e:  # noqa
+            stale = "other:%s" % type(e).__name__
+        out["stale_name"] = {"written": ["id", True], "unknown_nested": stale, "replaced": True, "others_kept": 2, "nested_after_replace": ["id", True]}
         ce = CE([("c0", DummyClassifier(), [0]), ("c1", DummyClassifier(), [0])])
         try:
             ce.set_params(c1__random_state=v)
@@ -500,15 +514,31 @@ class C04(Harness):
             "LogTransformer": (LOGT(), "tr"),
         }
         out = {}
+
+        def snap(params):
+            """parameter -> identity token; component lists by the identity of every (name, component)"""
+            d = {}
+            for k, v in params.items():
+                if isinstance(v, list):
+                    d[k] = [tuple(id(x) if hasattr(x, "get_params") else x for x in item) if isinstance(item, tuple) else id(item) for item in v]
+                    d[k].append(("list-object", id(v)))
+                else:
+                    d[k] = id(v) if not isinstance(v, (int, float, str, bool, type(None))) else v
+            return d
+
         for name, (est, kind) in ests.items():
-            before = est.get_params(deep=False)
+            before = snap(est.get_params(deep=False))
+            unfitted_components = [c for v in est.get_params(deep=False).values() if isinstance(v, list) for item in v if isinstance(item, tuple) for c in item if hasattr(c, "is_fitted")]
             rec = {}
             try:
                 r = est.fit(y) if kind == "tr" else est.fit(y, fh=1)
                 rec["returns_self"] = r is est
                 rec["fitted"] = bool(est.is_fitted)
-                after = est.get_params(deep=False)
-                rec["params_same"] = sorted(k for k in before if after.get(k) is not before[k] and after.get(k) != before[k])
+                after = snap(est.get_params(deep=False))
+                rec["params_same"] = sorted(k for k in before if after.get(k) != before[k])
+                # the prototypes the user passed stay unfitted (fit works on clones)
+                if any(getattr(c, "is_fitted", False) for c in unfitted_components):
+                    rec["params_same"].append("<a component passed by the user was fitted in place>")
             except Exception as e:  # noqa
                 rec["raised"] = type(e).__name__
             out[name] = rec
